@@ -6,11 +6,11 @@ BASELINE = json.load(open('/root/.vp/BASELINE.json'))['cmd']
 
 CHECKS = {
  "C19": dict(level="exploration", design="DESIGN.md §4 C19",
-   text="For every program of the product raising operation x operand values (including values longer than the 20-character abbreviation, arrays, functions, multi-line strings) x failure site (top level, call depth 1..4 with reassigned parameters, through function-valued parameters and closures, loop bodies, generators, nested generators, zips, built-ins), and for every failing member of the operand-source x statement-context product, the captured report is parsed and compared with the reference model's record of the failure: class, the single marked instruction (which must be the one the step hook saw last and belong to the failing operation's family), operand values in source order, and per context the active calls innermost first with call-site names and current parameter values.",
+   text="For every program of the product raising operation x operand values (including values longer than the 20-character abbreviation, arrays, functions, multi-line strings) x failure site (top level, call depth 1..4 with reassigned parameters, through function-valued parameters and closures, loop bodies, generators, nested generators, zips, built-ins), and for every failing member of the operand-source x statement-context product, the statements are run through the real processInput of the read-eval loop and the captured report is parsed and compared with the reference model's record of the failure: class, the single marked instruction (which must be the one the step hook saw last and belong to the failing operation's family), operand values in source order, and per context the active calls innermost first with call-site names and current parameter values.",
    note="Trusts the reference model's failure record (operation, operands, active calls per coroutine) and the report grammar read off the documented sample; context addresses are not compared.",
    technique="bounded exhaustive enumeration of failing programs with the report text parsed and compared against an executable reference model's failure trace"),
  "C17": dict(level="exploration", design="DESIGN.md §4 C17",
-   text="The contracts of the eight built-ins are checked on every element of finite argument alphabets: toa against write for 57 values of every kind and nesting, aton(toa(n)) == n for boundary ints and 210 finite floats, fromto over all pairs in -3..3 and at both ends of the int range, elems/indices (alone and zipped) over every array and string of length 0..4, wrong kinds and arities, and - through the built binary - every stdin of up to 3 lines (with and without final line break) against 0..4 read() calls in -eval and file mode, plus exit() with valid and invalid arguments.",
+   text="The contracts of the eight built-ins are checked on every element of finite argument alphabets: toa against write for 57 values of every kind and nesting, aton(toa(n)) == n for boundary ints and 210 finite floats, fromto over all pairs in -3..3 and at both ends of the int range, elems/indices (alone and zipped) over every array and string of length 0..4 (also after the program rebinds another built-in's name), wrong kinds and arities, and - through the built binary - every stdin of up to 3 lines (with and without final line break) against 0..4 read() calls in -eval and file mode, plus exit() with valid and invalid arguments.",
    note="Expected results are computed by the reference model's value rendering and the stated contracts; argument values outside the alphabets are not covered.",
    technique="exhaustive enumeration of finite argument and input-history alphabets against the stated contracts"),
  "C16": dict(level="model_checking", design="DESIGN.md §4 C16",
@@ -26,15 +26,15 @@ CHECKS = {
    note="Trusts the reference model only for the baseline of each function; all other comparisons are between runs of the real VM. Functions, contexts and histories outside the alphabets are not covered.",
    technique="bounded exhaustive enumeration of function x context x history with a differential oracle on the real code"),
  "C04": dict(level="exploration", design="DESIGN.md §4 C04",
-   text="Every point of a seven-dimensional product of scope skeletons (shadowed global or not, 0/1/199 other locals, where the variable is defined, 11 inner-function shapes, updates after capture with and without stack growth, six ways the inner function is used or escapes, stack churn before an escaped function is called) plus recursive definers at depth 3/50/200 is executed with unique tags on every write; every read must hit the binding the by-name rules predict, and globals, caller variables and arguments are rendered before and after every call.",
+   text="Every point of a seven-dimensional product of scope skeletons (shadowed global or not, 0/1/199 other locals, where the variable is defined, 11 inner-function shapes, updates after capture with and without stack growth, six ways the inner function is used or escapes, stack churn before an escaped function is called) plus recursive definers at depth 3/50/200 is executed with unique tags on every write; every read must hit the binding the by-name rules predict, and globals, caller variables and arguments are rendered before and after every call. A differential family checks that every activation starts with empty variables: functions with 0..3 parameters and 1..4 conditionally assigned variables, called directly / nested / in a loop / in a generator after six kinds of polluting statements, must answer as in a fresh session.",
    note="Trusts the reference model's scoping rules (own, one-level captured, global); programs whose reads are ambiguous between the lexical and the dynamic reading (D-use-before-def) are skipped and counted.",
    technique="exhaustive enumeration of a finite product of scope skeletons with tagged writes against an executable reference model"),
  "C08": dict(level="model_checking", design="DESIGN.md §4 C08",
-   text="Explicit-state search over session histories: every sequence of up to 3 (4) statements from an alphabet of 26 (good statements; lexer, parser and unbalanced-input errors; every runtime error class at top level, at depth, in loop bodies, in suspended and nested generators, in a zip, in closures, with partial global effects; a top-level return out of nested loops) is replayed on a fresh real VM and followed by 9 observers; each statement is compared with the reference model, the machine must be at rest after every statement (hooks), and the observers must answer exactly as in the failure-free twin session holding the same globals.",
+   text="Explicit-state search over session histories: every sequence of up to 3 (4) statements from an alphabet of 31 (good statements; lexer, parser and unbalanced-input errors; every runtime error class at top level, at depth, in loop bodies, in suspended and nested generators, in a zip, in closures, with partial global effects; a top-level return out of nested loops) is replayed on a fresh real VM and followed by 14 observers; each statement is compared with the reference model, the machine must be at rest after every statement (hooks), and the observers must answer exactly as in the failure-free twin session holding the same globals.",
    note="States (reference global store + machine state) are reported for coverage; every history is executed in full on the real VM (traces_validated_against_impl = histories). Longer histories and other failing statements are not covered.",
    technique="explicit-state exploration of statement histories on the real session object with a reference model, hook invariants and a differential failure-free twin"),
  "C10": dict(level="model_checking", design="DESIGN.md §4 C10",
-   text="Explicit-state search over every sequence of up to 3 (4) of 32 array/string operations on seven globals (literals at top level / in functions / in loops, all slices, concatenations of slices, nested arrays, passing, iterating, capture in closures and generators); after every operation an observer evaluating every variable, the accumulated earlier results, a literal-returning function and a closure is compared between the real VM and a reference model that copies always. States are (renderings, len/cap, backing-array sharing relation) read through the value hook.",
+   text="Explicit-state search over every sequence of up to 3 (4) of 48 array/string operations (two of them ending in a runtime error after redefining functions that hold literals) on seven globals (literals at top level / in functions / in loops, all slices, concatenations of slices, nested arrays, passing, iterating, capture in closures and generators); after every operation an observer evaluating every variable, the accumulated earlier results, a literal-returning function and a closure is compared between the real VM and a reference model that copies always. Sequences of length <= 2 and all sequences containing a failing statement are also typed into the real read-eval loop, whose echo of every observer must equal the in-process value. States are (renderings, len/cap, backing-array sharing relation) read through the value hook.",
    note="distinct_nontrivial counts sequences after which two live arrays really share a backing array with spare capacity; longer sequences and other operations are not covered.",
    technique="explicit-state exploration of operation sequences on the real VM against a copying reference model, with sharing measured through a hook"),
  "C09": dict(level="exploration", design="DESIGN.md §4 C09",
@@ -62,23 +62,23 @@ CHECKS = {
    note="Trusts the harness printer as the statement of the documented grammar; deeper trees and multi-site layout combinations are not covered.",
    technique="bounded exhaustive enumeration of syntax trees x layouts with a print/parse round-trip oracle"),
  "C06": dict(level="exploration", design="DESIGN.md §4 C06",
-   text="Every string over a 16-symbol alphabet up to length 5/6, every token sequence over a 27-token alphabet up to length 4/5 and the scaling families (literals of 1..400 digits, bracket nesting to 10000, a program truncated at every position and continued by unterminated strings, comments, escapes and invalid bytes) are parsed by the real front end under lexer+parser fuel; error spans, the error display and the absence of any execution on error are checked on every rejected input, also through the built binary.",
+   text="Every string over a 16-symbol alphabet up to length 5/6, every token sequence over a 27-token alphabet up to length 4/5 and the scaling families (literals of 1..400 digits, bracket nesting to 10000, a program truncated at every position and continued by unterminated strings, comments, escapes and invalid bytes) are parsed by the real front end under lexer+parser fuel; error spans, the error display and the absence of any execution on error are checked on every rejected input; errors at every distance from both ends of lines of 60..1000 characters; the inputs are also typed line by line into the real read-eval loop (parse-only parser, under fuel), which must come back and hand the following line to the parser; and, through the built binary in -eval, file and piped-REPL mode, a syntax or lexical error must neither abort, hang nor swallow the statement that follows it.",
    note="Fuel (loop iterations of the lexer plus TLexer.Next/Snapshot calls, 2000 per byte against a measured maximum of about 50) stands in for 'finite time'; characters outside the alphabet and longer inputs are not covered.",
    technique="exhaustive enumeration of all strings / token sequences up to a length bound under step fuel, with direct invariant checks on every result"),
  "C01": dict(level="exploration", design="DESIGN.md §4 C01",
-   text="Bounded-exhaustive conformance of the real pipeline (parser, symbol rewriter, bytecode compiler, VM built from the working tree) against an executable reference model of the documented language: every program of the operand-source x statement-context and operand-source x expression-context products (about a million sessions in the quick tier) is executed on a fresh VM and on the model and compared on value, output and error class, statement by statement.",
+   text="Bounded-exhaustive conformance of the real pipeline (parser, symbol rewriter, bytecode compiler, VM built from the working tree) against an executable reference model of the documented language: every program of the operand-source x statement-context and operand-source x expression-context products (about a million sessions in the quick tier) is executed on a fresh VM and on the model and compared on value, output and error class, statement by statement; further families: statements by size, the statement-position product, generator loops, scope skeletons with three-level nesting, and every comparison (plain, negated, doubly negated) over NaN/Inf/-0.0/int-float pairs in twelve value positions.",
    note="Trusts the reference model refsem (self-tested against every TestCalc row and Readme example before each run) and the domain restriction stated in DESIGN.md §3.3; programs outside the enumerated families and bounds are not covered.",
    technique="bounded exhaustive enumeration of programs (products of finite alphabets) with conformance checking against an executable reference model"),
  "C13": dict(level="model_checking", design="DESIGN.md §4 C13",
-   text="(a) Explicit-state breadth-first search over every sequence of Next/Snapshot/Rollback/Commit on the real transactional lexer (states keyed on readp, writep and the snapshot stack), each transition compared with a fresh plain scan; (b) every combinator term to depth 2 over Accept/Ok/And/Seq/OneOf/Choose/Any/SeparatedBy/SurroundedBy/Assert/Not/Drop/Fmap run on all 121 token streams of length <= 4 over both the real TLexer and a list lexer and compared with an ordered-choice recogniser on accept/reject, results and input position.",
+   text="(a) Explicit-state breadth-first search over every sequence of Next/Snapshot/Rollback/Commit on the real transactional lexer (every path executed; states = distinct readp, writep and snapshot stack, counted, not used for pruning), each transition compared with a fresh plain scan; (b) every combinator term to depth 2 over Accept/Ok/And/Seq/OneOf/Choose/Any/SeparatedBy/SurroundedBy/Assert/Not/Drop/Fmap run on all 121 token streams of length <= 4 over both the real TLexer and a list lexer and compared with an ordered-choice recogniser on accept/reject, results and input position.",
    note="The recogniser (harness side) is the model; every model behaviour is replayed on the real combinators (traces_validated_against_impl). Terms deeper than the bound and streams longer than 4 tokens are not covered.",
    technique="explicit-state BFS over the real TLexer's transition function + exhaustive term x stream enumeration against an ordered-choice recogniser"),
  "C14": dict(level="exploration", design="DESIGN.md §4 C14",
-   text="Every string over an 18-character alphabet (digits, letters, operator and bracket characters, quote, backslash, dot, blank, tab, newline, semicolon) up to length 5 (quick) / 6 (thorough) is tokenised by the real lexer and by an independent tokenizer written from the Readme's token regexes; spans, gaps, end markers and every single-gap layout variation are checked on each accepted string.",
+   text="Every string over an 18-character alphabet (digits, letters, operator and bracket characters, quote, backslash, dot, blank, tab, newline, semicolon) up to length 5 (quick) / 6 (thorough) and every string of up to 4 (5) characters over all operator and punctuation characters is tokenised by the real lexer and by an independent tokenizer written from the Readme's token regexes; spans, gaps, end markers and every single-gap layout variation are checked on each accepted string.",
    note="Trusts the independent tokenizer (harness side); characters outside the alphabet and longer strings are not covered; termination is C06's subject (fuel-exhausted inputs are skipped and counted).",
    technique="exhaustive enumeration of all strings up to a length bound against an independent specification tokenizer + invariant checking"),
  "C11": dict(level="exploration", design="DESIGN.md §4 C11",
-   text="Every operand tuple of a 43-value alphabet (all kinds, boundary ints, ±0/±Inf/NaN, nested arrays, functions) for every operator method and every container/index combination around the bounds is executed on the real value package and compared with the specification table written from Readme.md; the stated laws are evaluated on every tuple. The space is finite and enumerated completely in both tiers.",
+   text="Every operand tuple of a 46-value alphabet (all kinds, boundary ints, ±0/±Inf/NaN, nested arrays, functions) for every operator method and every container/index combination around the bounds is executed on the real value package and compared with the specification table written from Readme.md; the stated laws are evaluated on every tuple; every binary tuple is also evaluated through compiled programs (operands bound to globals; plain, negated, doubly negated, inside an array literal, the same variable on both sides) and the index/slice forms and slice laws are run as program text with bounds computed by calls. The space is finite and enumerated completely in both tiers.",
    note="Trusts the harness-side specification table (refsem/value.go), which is itself cross-checked against all TestCalc rows; operand values outside the alphabet are not covered.",
    technique="bounded exhaustive enumeration of operand tuples against an executable specification + law checking"),
 }
